@@ -303,6 +303,7 @@ Global(c, o, ev) ==
            /\ ~(c.W >= 0 /\ ShutdownT(o) >= 0 /\ o.now >= ShutdownT(o) + c.W)
         THEN {"C05_NoEarlyReturn"} ELSE {})
   \cup (IF ev.e = "ret" /\ o.nCb < Len(o.taken) THEN {"C05_Drains"} ELSE {})
+  \cup (IF ev.e = "ret" /\ orphans > 0 THEN {"C05_NoEarlyReturn"} ELSE {})
   (* "runs every message it has already taken to completion (including its acknowledgement)": a message whose processing *)
   (* ended normally has been acknowledged, and an acknowledgement that takes time has finished, when listen() returns     *)
   \cup (IF ev.e = "ret" /\ c.ackable /\ ~FatalHookRaises(c)
